@@ -118,6 +118,7 @@ func ApplyOp(d *document.Document, op Op, valBase int, fail string) (res Resolve
 			o.SetString(k, v)
 			res.Args["key"], res.Args["val"] = k, v
 		case "obj.setobj":
+			// a nested container at the key; V selects its type
 			o := r.GetObject(KObj)
 			if o == nil {
 				skip = true
@@ -125,23 +126,50 @@ func ApplyOp(d *document.Document, op Op, valBase int, fail string) (res Resolve
 			}
 			k := objKeys[mod(op.A, len(objKeys))]
 			v := uniq(valBase, op.V)
-			o.SetNewObject(k).SetInteger("x", v)
+			switch mod(op.V, 4) {
+			case 0, 2:
+				o.SetNewObject(k).SetInteger("x", v)
+				res.Args["type"] = "object"
+			case 1:
+				o.SetNewArray(k).AddInteger(v, v+1)
+				res.Args["type"] = "array"
+			case 3:
+				o.SetNewCounter(k, v)
+				res.Args["type"] = "counter"
+			}
 			res.Args["key"], res.Args["val"] = k, v
 		case "obj.setin":
-			// set a member inside a nested object if there is one at the key
+			// edit inside the nested container at the key, whatever it is
 			o := r.GetObject(KObj)
 			if o == nil {
 				skip = true
 				return nil
 			}
 			k := objKeys[mod(op.A, len(objKeys))]
-			e := o.Get(k)
-			if _, ok := e.(*crdt.Object); !ok {
+			v := uniq(valBase, op.V)
+			switch e := o.Get(k).(type) {
+			case *crdt.Object:
+				if mod(op.V, 2) == 0 || !e.Has("x") {
+					o.GetObject(k).SetInteger("y", v)
+				} else {
+					o.GetObject(k).Delete("x")
+				}
+				res.Args["type"] = "object"
+			case *crdt.Array:
+				a := o.GetArray(k)
+				if mod(op.V, 2) == 0 || a.Len() == 0 {
+					a.AddInteger(v)
+				} else {
+					a.Delete(0)
+				}
+				res.Args["type"] = "array"
+			case *crdt.Counter:
+				o.GetCounter(k).Increase(mod(op.V, 5) + 1)
+				res.Args["type"] = "counter"
+			default:
 				skip = true
 				return nil
 			}
-			v := uniq(valBase, op.V)
-			o.GetObject(k).SetInteger("y", v)
 			res.Args["key"], res.Args["val"] = k, v
 		case "obj.del":
 			o := r.GetObject(KObj)
